@@ -234,14 +234,14 @@ Fixpoint commit_all (acct : string) (todo : list N) (cl : cluster) : cluster * l
   end.
 
 (* Lagrange coefficient at 0 for identifier xi among xs, and recovery (bls Sign.Recover) *)
-Fixpoint fpow (a : Z) (fuel : nat) (e : Z) : Z :=
+(* modular inverse by the extended Euclidean algorithm (fuel: the quotient sequence of two 255-bit
+   numbers has fewer than 400 steps) *)
+Fixpoint egcd (fuel : nat) (r0 r1 s0 s1 : Z) : Z :=
   match fuel with
-  | O => 1
-  | S f => if e =? 0 then 1 else
-           let h := fpow a f (e / 2) in
-           let h2 := fmul h h in if Z.odd e then fmul h2 a else h2
+  | O => s0
+  | S f => if r1 =? 0 then s0 else let q := r0 / r1 in egcd f r1 (r0 - q * r1) s1 (s0 - q * s1)
   end.
-Definition finv (a : Z) : Z := fpow a 260 (qord - 2).
+Definition finv (a : Z) : Z := fmod (egcd 400 qord (fmod a) 0 1).
 Definition lagrange0 (xs : list Z) (xi : Z) : Z :=
   fold_left (fun acc xj => if xj =? xi then acc else fmul acc (fmul xj (finv (fmod (xj - xi))))) xs 1.
 Definition recover0 (pts : list (Z * Z)) : Z :=
@@ -269,14 +269,32 @@ Definition check_commits (thr : nat) (replies : list (N * dres (Z * Z))) : optio
       then Some pk else None
   end.
 
+(* the network between the initiator and the participants: a prepare or execute message to a
+   participant may be lost or answered by an error (true = not delivered), a contribution in flight
+   may be lost or altered *)
+Record net := { nt_swap : tamper; nt_lost_prepare : N -> bool; nt_lost_execute : N -> bool }.
+Definition net_of (tm : tamper) : net := {| nt_swap := tm; nt_lost_prepare := fun _ => false; nt_lost_execute := fun _ => false |}.
+
+(* the participants reached before the first undelivered message *)
+Fixpoint until {A} (lost : A -> bool) (l : list A) : list A :=
+  match l with [] => [] | x :: r => if lost x then [] else x :: until lost r end.
+
+(* the two exchange phases; the boolean says whether both completed for every participant *)
+Definition exchange (c : dcfg) (nt : net) (acct : string) (thr : nat) (parts : list N) (poly : N -> list Z) (cl : cluster)
+  : bool * cluster :=
+  let pre1 := until (nt_lost_prepare nt) parts in
+  let '(ok1, cl1) := prepare_all acct thr parts poly pre1 cl in
+  if negb (ok1 && (List.length pre1 =? List.length parts)%nat) then (false, cl1) else
+  let pre2 := until (nt_lost_execute nt) parts in
+  let '(ok2, cl2) := execute_all c (nt_swap nt) acct pre2 cl1 in
+  (ok2 && (List.length pre2 =? List.length parts)%nat, cl2).
+
 (* the initiator stops at the first failed prepare or execute and never sends commit *)
-Definition generate (c : dcfg) (tm : tamper) (acct : string) (thr : nat) (parts : list N) (poly : N -> list Z) (cl : cluster)
+Definition generate (c : dcfg) (nt : net) (acct : string) (thr : nat) (parts : list N) (poly : N -> list Z) (cl : cluster)
   : dres Z * cluster :=
   if negb (threshold_ok (List.length parts) thr) then (DErr, cl) else
-  let '(ok1, cl1) := prepare_all acct thr parts poly parts cl in
-  if negb ok1 then (DErr, cl1) else
-  let '(ok2, cl2) := execute_all c tm acct parts cl1 in
-  if negb ok2 then (DErr, cl2) else
+  let '(ok, cl2) := exchange c nt acct thr parts poly cl in
+  if negb ok then (DErr, cl2) else
   let '(cl3, replies) := commit_all acct parts cl2 in
   if existsb (fun r => match snd r with DPanic => true | _ => false end) replies then (DPanic, cl3) else
   match check_commits thr replies with
